@@ -483,6 +483,21 @@ def run(ctx):
     ctx.check(okr9, 'C18.R9', 'PolicyDirectoryMonitor.scan_policies|reload-drops-stale-shadow-entries', '%s PolicyDirectoryMonitor.scan_policies' % MONITOR,
               'after a reload the file is disassociated from every cached name absent from its new content',
               'a reloaded file is only disassociated from the names it currently owns: a shadowed file that stops defining a name keeps its stale entry on the shadow stack')
+    # ---------------- R10 the engine consults the shared store for every decision
+    ctx.rule('C18.R10', 'the engine looks the policy name up in the shared policy store on every access decision: every return of KmipEngine.get_relevant_policy_section is preceded by self._operation_policies.get(<policy name parameter>), and that mapping is assigned once, in __init__, from the constructor argument - no memo of earlier lookups stands between the files and the decision')
+    from ..engmodel import EngineModel, ENGINE
+    em = EngineModel(src)
+    grp = em.method('get_relevant_policy_section')
+    gg10 = CFG(grp)
+    pname10 = params(grp)[0]
+    lk = [n for n in gg10.nodes for c in calls_at(n) if isinstance(c.func, ast.Attribute) and c.func.attr in ('get', '__getitem__') and is_self_attr(c.func.value, '_operation_policies')
+          and c.args and isinstance(c.args[0], ast.Name) and c.args[0].id == pname10]
+    lk += [n for n in gg10.nodes for e_ in expr_nodes(n) for x in ast.walk(e_) if isinstance(x, ast.Subscript) and is_self_attr(x.value, '_operation_policies') and isinstance(x.slice, ast.Name) and x.slice.id == pname10]
+    ok10 = bool(lk) and gg10.all_paths_pass(gg10.entry, gg10.exit, lk)
+    stores10 = [meth for meth, (r_, w_) in em.field_effects().items() if '_operation_policies' in w_]
+    ctx.check(ok10 and stores10 == ['__init__'], 'C18.R10', 'KmipEngine.get_relevant_policy_section|store-consulted-on-every-path', '%s:%s KmipEngine.get_relevant_policy_section' % (ENGINE, grp.lineno),
+              'every return follows a lookup of the policy name in the shared store; the store reference is set once in __init__',
+              'a path through get_relevant_policy_section returns without looking the name up in the shared policy store (or the store reference is reassigned in %s): a policy added, restored or repaired by the monitor is then not in force for that name' % stores10)
     # ---------------- R7 no structure is modified while it is being iterated
     ctx.rule('C18.R7', 'no list or dict of the monitor is structurally modified (remove/pop/insert/append/del) inside a for loop that iterates over that very object: elements are skipped (or the iteration fails), so stale shadow entries survive. Iterating a copy (list(x), x[:], a comprehension) or <DictProxy>.keys() (a list, by the recorded assumption) is fine')
     n_it = 0
@@ -512,7 +527,7 @@ def run(ctx):
             site = '%s:%s PolicyDirectoryMonitor.%s' % (MONITOR, lp.lineno, name)
             ctx.check(not hits, 'C18.R7', 'PolicyDirectoryMonitor.%s|modifies %s while iterating it' % (name, base), site, 'the iterated object %s is not modified in the loop body' % base,
                       'the loop iterates over %s and its body modifies the same object (%s): the element after each removed one is skipped, so entries that should go stay behind' % (base, hits[:3]))
-    ctx.count('direct_iterations_in_monitor', n_it, 2)
+    ctx.count('direct_iterations_in_monitor', n_it)
     # ---------------- R4 pairing
     scan = ms['scan_policies']
     for name, fn in ms.items():
